@@ -24,6 +24,12 @@ CLAIMED.update({
    note="Trusted: Lean kernel + Mathlib; translator; correspondence of the 1-D kernel with the exact model; scipy quad/expm in the oracles. Convergence of a finite-difference scheme to the diffusion and to coalescent theory is research-level analysis and is outside what is proved here; thresholds: the property's own 1.5%, time-step ratio in [4,25] (observed ~10), refinement ratios calibrated on the unchanged tree (observed 3.1-6.0, accepted 2-6.5).",
    technique="Lean 4 proofs of the scheme's exact moment laws + numerical comparison with independent coalescent/equilibrium oracles", ref="5/C01"),
 })
+CLAIMED.update({
+ 'C20': dict(
+   text="Proved in Lean 4: the memo pattern used by every module-level cache is transparent for every call history (any sequence of calls from any sound cache, in particular from the empty cache of a fresh interpreter, returns the pure function's values) provided the key determines the value, and a counter-model shows the hypothesis is needed; for every memo table present in the current source (found by pattern, so a cache added later is included) a backward slice of the cached value shows the key mentions every input it is computed from (table regenerated each run and decided); the effect table, regenerated by a conservative syntactic analysis of Integration, Spectrum methods, Inference, Misc, Godambe, Numerics, PhiManip, shows that no audited function outside the documented in-place exemptions contains a statement that can modify an argument and that the five public integrators return a fresh array. Monitored at run time (cannot be exhibited by a pure model): interleavings of 2-40 API calls of 22 kinds in one process vs each call in a fresh interpreter, compared bit-for-bit; the same under several PYTHONHASHSEED values; C/Fortran/strided/negatively-strided/transposed layouts of every array argument of the integrators (constant and time-dependent drivers), from_phi and Spectrum methods; byte-wise comparison of arguments before/after and np.shares_memory(result, argument), in a crash-isolated child process.",
+   note="Trusted: Lean kernel + Mathlib; tools/gen_Effects.py (the slice and alias analyses are syntactic over-approximations: they cannot see dynamic dispatch or writes made by C code - those are covered only by the run-time byte comparisons); CPython/numpy behaviour. Hash-seed, layout and aliasing clauses are exploration, not proof. Key sufficiency of Godambe.cache relies on func.__hash__() identifying the function (object identity; id reuse after garbage collection is outside the model).",
+   technique="Lean 4 memo-transparency theorem + generated key-sufficiency and effect tables (decide) + run-time differential monitoring (fresh interpreter, hash seed, layouts, byte comparison)", ref="5/C20"),
+})
 NOT_YET = {}
 # properties built by sub-tasks: MANIFEST text is taken from notes/Cxx.md (sections **level_claimed.text**, **level_note**,
 # **technique**) once the check has been verified by the owner and listed here
